@@ -232,8 +232,9 @@ static int32_t wr_summary(struct jls_core_fsr_s * self, uint8_t level) {
     ROE(wr_index(self, level));
 
     uint8_t * p_start = (uint8_t *) dst->summary;
-    uint8_t * p_end = (uint8_t *) dst->summary->data[dst->summary->header.entry_count];
-    uint32_t payload_len = (uint32_t) (p_end - p_start);
+    // entries are 4 x f32 or 4 x f64: the f32 struct type does not tell
+    size_t entry_sz = (JLS_SUMMARY_FSR_COUNT * (size_t) summary_entry_size(self)) / 8;
+    uint32_t payload_len = (uint32_t) (sizeof(dst->summary->header) + dst->summary->header.entry_count * entry_sz);
     ROE(jls_core_wr_summary(self->parent->parent, self->parent->signal_def.signal_id, JLS_TRACK_TYPE_FSR, level,
                             p_start, payload_len));
     ROE(jls_core_fsr_summaryN(self, level + 1, pos_next));
